@@ -1027,8 +1027,7 @@ CONFIG["C20"] = dict(
                "in the metrics and not judged.",
     partial=["`bounded` by what the active searches NEED is monitor-only; the acceptance rule for PTR-less packets makes it false of "
              "the code (known finding D25); cache_bounded bounds the cache by what was DELIVERED and is still live",
-             "the size corollary (number of entries <= number of distinct live delivered records) is not proved (needs the "
-             "uniqueness invariant of the cache lists); the `subtype` map is never pruned (not a table of records)"],
+             "the `subtype` map is never pruned (not a table of records; not covered by drained_* / cache_size_bounded)"],
     assumptions=["metrics are the observable (as the statement says)"],
 )
 
